@@ -833,6 +833,8 @@ func cliEngine(c *Ctx) {
 		[]string{"@ENV:RIO_BASE=relbase@", "@GONE@", "scan", "tar", "--source=file://@W@/nonexistent.tgz"})
 	for _, pl := range []string{"direct", "copy", "none"} {
 		vecs = append(vecs, []string{"unpack", "@GOODID@", "@W@/tlink", "--source=ca+file://@W@/wh", "--placer=" + pl},
+			[]string{"unpack", "@GOODID@", "@W@/tlink/", "--source=ca+file://@W@/wh", "--placer=" + pl},
+			[]string{"unpack", "@GOODID@", "@W@/tlink/.", "--source=ca+file://@W@/wh", "--placer=" + pl},
 			[]string{"unpack", "@GOODID@", "@W@", "--source=ca+file://@W@/wh", "--placer=" + pl},
 			[]string{"unpack", "@GOODID@", "@W@/wh/..", "--source=ca+file://@W@/wh", "--placer=" + pl},
 			[]string{"@CD:wh@", "unpack", "@GOODID@", ".", "--source=ca+file://.", "--placer=" + pl},
